@@ -616,6 +616,33 @@ def _native_geometry(tier="quick", seed=0):
             if (ch.chOff.x, ch.chOff.y, ch.chExt.cx, ch.chExt.cy) != (g.left, g.top, g.width, g.height):
                 bad = bad or "after step %d the %s has child offset / extent %r, own offset / extent %r" % (k, name, (ch.chOff.x, ch.chOff.y, ch.chExt.cx, ch.chExt.cy), (g.left, g.top, g.width, g.height))
     rec("C17.native.group_box_is_the_bounding_box_of_its_members", bad)
+    # freeform builder: the shape made is the bounding box of the vertices drawn so far -- also when the same builder is converted a
+    # second time after more vertices (further left / up / right / down) were added, with scaling
+    bad = None
+    for scale in (1.0, 2.5, (3.0, 0.5)):
+        for start in ((1000, 1000), (0, 0), (-500, 700)):
+            prs = Presentation()
+            sl = prs.slides.add_slide(prs.slide_layouts[6])
+            fb = sl.shapes.build_freeform(start[0], start[1], scale=scale)
+            xs, ys = [start[0]], [start[1]]
+            sx, sy = (scale if isinstance(scale, tuple) else (scale, scale))
+            for more in ([(1500, 1200), (1300, 2000)], [(200, 300)], [(4000, 100), (50, 5000)], [(-900, -800)]):
+                fb.add_line_segments(more, close=False)
+                xs += [p_[0] for p_ in more]
+                ys += [p_[1] for p_ in more]
+                _ = fb.shape_offset_x, fb.shape_offset_y
+                shp = fb.convert_to_shape(Emu(10), Emu(20))
+                evals += 1
+                want = (10 + int(round(min(xs) * sx)), 20 + int(round(min(ys) * sy)), int(round((max(xs) - min(xs)) * sx)), int(round((max(ys) - min(ys)) * sy)))
+                got = (shp.left, shp.top, shp.width, shp.height)
+                if any(abs(a - b) > 1 for a, b in zip(got, want)):
+                    bad = bad or "freeform from %r scale %r after %d vertices: (left, top, width, height) = %r, bounding box of the vertices is %r" % (start, scale, len(xs), got, want)
+                path = shp._element.xpath(".//a:path")[0]
+                w_, h_ = int(path.get("w")), int(path.get("h"))
+                for pt in shp._element.xpath(".//a:pt"):
+                    if not (0 <= int(pt.get("x")) <= w_ and 0 <= int(pt.get("y")) <= h_):
+                        bad = bad or "freeform from %r after %d vertices: path point (%s, %s) outside the path box %d x %d" % (start, len(xs), pt.get("x"), pt.get("y"), w_, h_)
+    rec("C17.native.freeform_is_the_bounding_box_of_its_vertices_also_when_the_builder_is_reused", bad)
     return {"contract": "C17.native_geometry", "prop": "C17", "status": "ok", "obligations": obls, "paths": 0, "assumed": [], "functions": {},
             "notes": [], "solver_s": 0.0, "wall_s": _t.time() - t0,
             "bounded": {"name": "C17.native_geometry", "bound": "81 connectors (3 coordinates per end point) x 4 end points x 6 new positions; refused end-point assignments; nested groups grown by 6 members incl. zero-width / zero-height ones",
